@@ -82,9 +82,14 @@ def nat_binomial(v, raws):
 # id, entry, level, defs, repl (extra --replace-calls), flags, backends (tried in order in --thorough),
 # native (builder or None), note, thorough (only run with --thorough), quick_timeout override
 def G(gid, entry, level, defs=(), repl=(), flags=(), backends=(SAT,), native=None, note='', thorough=False, qt=None,
-      expect='ok', cover=False):
-    return dict(id=gid, entry=entry, level=level, defs=list(defs), repl=list(repl), flags=list(flags),
+      expect='ok', cover=False, experimental=False):
+    return dict(experimental=experimental, id=gid, entry=entry, level=level, defs=list(defs), repl=list(repl), flags=list(flags),
                 backends=list(backends), native=native, note=note, thorough=thorough, qt=qt, expect=expect, cover=cover)
+
+
+def GX(*a, **k):
+    """experimental: does not finish in the time box (or is a contract-level probe); only run with --experimental"""
+    return G(*a, experimental=True, **k)
 
 
 GROUPS = [
@@ -100,13 +105,16 @@ GROUPS = [
     G('C16.O1.uniform_overflow', 'h_uniform', 'proved', defs=['C16_UNI_BOUND=DBL_MAX'], native=nat_simple('uniform', 'lo', 'hi'), expect='failed',
       note='any finite min < max: max - min overflows to +inf for |min|,|max| near DBL_MAX'),
     G('C16.O1.uniform_unit', 'h_uniform', 'proved', defs=['C16_UNI_MIN=0.0', 'C16_UNI_MAX=1.0'], native=lambda v, r: ['uniform', '0', '1']),
-    G('C16.O1.uniform', 'h_uniform', 'proved', backends=(SAT, CADICAL, Z3), native=nat_simple('uniform', 'lo', 'hi'), thorough=True,
+    GX('C16.O1.uniform', 'h_uniform', 'proved', backends=(SAT, CADICAL, Z3), native=nat_simple('uniform', 'lo', 'hi'), thorough=True,
       note='|min|,|max| <= 1e300; symbolic floating-point multiply'),
-    G('C16.O1.pareto', 'h_pareto', 'proved', native=nat_simple('pareto', 'shape', 'mode'), expect='failed',
-      note='expected: cmb_random() == 0.0 gives mode / pow(0, 1/shape) = +inf'),
-    G('C16.O1.logistic', 'h_logistic', 'proved', native=nat_simple('logistic', 'm', 's'), expect='failed',
-      note='expected: cmb_random() == 0.0 gives log(0) = -inf'),
-    G('C16.O1.triangular', 'h_triangular', 'proved', defs=['C16_EXACT_LIBM'], backends=(SAT, CADICAL), thorough=True,
+    GX('C16.O1.pareto_anymode', 'h_pareto', 'proved', backends=(SAT, CADICAL, Z3), native=nat_simple('pareto', 'shape', 'mode'),
+      note='every mode > 0: mode / r >= mode for r in (0,1] is a division fact no back end finishes in 200 s'),
+    G('C16.O1.pareto', 'h_pareto', 'proved', defs=['C16_PARETO_MODE=1.0'], native=lambda v, raws: ['pareto', str(v.get('shape', '1.0')), '1.0'],
+      note='mode = 1.0 (listed bound; the result scales with mode, general mode is C16.O1.pareto_anymode, experimental); not NaN, >= mode, and the inversion formula is never evaluated at the pole u = 0 (cmi_random_open); finiteness for representable parameters is C16.O1.pareto_finite (experimental: undecided)'),
+    GX('C16.O1.pareto_finite', 'h_pareto', 'proved', defs=['C16_PARETO_FINITE'], backends=(SAT, CADICAL, Z3), native=nat_simple('pareto', 'shape', 'mode'),
+      note='shape >= 1/16, mode <= 2^100: mode / pow(u, 1/shape) is finite; no back end finishes the division in 300 s'),
+    G('C16.O1.logistic', 'h_logistic', 'proved', native=nat_simple('logistic', 'm', 's'), note='the inversion formula is evaluated on (0,1) only (cmi_random_open)'),
+    GX('C16.O1.triangular', 'h_triangular', 'proved', defs=['C16_EXACT_LIBM'], backends=(SAT, CADICAL), thorough=True,
       native=nat_simple('triangular', 'lo', 'md', 'hi'), note="CBMC's exact sqrt model; symbolic multiply/divide"),
     # ---- O2: bounded unwind n <= 3
     G('C16.O2.loaded_dice', 'h_loaded_dice', 'bounded-unwind', defs=['C16_N=2'], flags=UNW(3), native=nat_probs('loaded_dice'), expect='failed',
@@ -114,19 +122,19 @@ GROUPS = [
     G('C16.O2.loaded_dice_n3', 'h_loaded_dice', 'bounded-unwind', flags=UNW(4), backends=(CADICAL, SAT), native=nat_probs('loaded_dice'), expect='failed', thorough=True,
       note='n <= 3 (MiniSat and z3 do not finish in 300 s, cadical about 2 min)'),
     G('C16.O2.alias_create', 'h_alias_create', 'bounded-unwind', defs=['C16_N=2'], flags=UNW(3) + CONV, native=nat_probs('alias'), note='n <= 2 (n <= 3 does not finish in 300 s: C16.O2.alias_create_n3, --thorough)'),
-    G('C16.O2.alias_create_n3', 'h_alias_create', 'bounded-unwind', flags=UNW(4) + CONV, backends=(SAT, ['--refine-arithmetic'], CADICAL), native=nat_probs('alias'), thorough=True, note='n <= 3'),
+    GX('C16.O2.alias_create_n3', 'h_alias_create', 'bounded-unwind', flags=UNW(4) + CONV, backends=(SAT, ['--refine-arithmetic'], CADICAL), native=nat_probs('alias'), thorough=True, note='n <= 3'),
     G('C16.O2.alias_sample', 'h_alias_sample', 'bounded-unwind', flags=UNW(4) + CONV, native=None),
     G('C16.O2.binomial', 'h_binomial', 'bounded-unwind', flags=UNW(4), native=nat_binomial),
     G('C16.O2.hyperexponential', 'h_hyperexp', 'bounded-unwind', defs=['C16_N=2'], repl=[EXP_STUB], flags=UNW(3), native=nat_probs('hyperexp', extra=('ma',)), expect='failed',
       note='n <= 2; expected: inherits the loaded_dice defect, then reads ma[n]; cmi_random_exp_not_hot replaced by its contract (>= 0, finite)'),
     G('C16.O2.hypoexponential', 'h_hypoexp', 'bounded-unwind', repl=[EXP_STUB], flags=UNW(4), native=None,
       note='cmi_random_exp_not_hot replaced by its contract (>= 0, finite)'),
-    G('C16.O2.geometric', 'h_geometric', 'bounded-unwind', defs=['C16_HOT_ONLY_EXP'], repl=[EXP_STUB], flags=CONV + ['--float-overflow-check'],
+    G('C16.O2.geometric', 'h_geometric', 'bounded-unwind', defs=['C16_HOT_ONLY_EXP'], repl=[EXP_STUB], flags=CONV,
       native=nat_simple('geometric', 'p'), expect='failed',
       note='expected: (unsigned)ceil(exp/denom) out of range for tiny p, 0 for p = 1 or raw = 0; listed assumption: ziggurat hot path only (idx <= zig_max); log() is a contract, so the native replay is the arbiter of this counterexample'),
-    G('C16.O2.geometric_p1', 'h_geometric', 'bounded-unwind', defs=['C16_HOT_ONLY_EXP', 'C16_GEO_P=1.0'], repl=[EXP_STUB], flags=CONV + ['--float-overflow-check'],
+    G('C16.O2.geometric_p1', 'h_geometric', 'bounded-unwind', defs=['C16_HOT_ONLY_EXP', 'C16_GEO_P=1.0'], repl=[EXP_STUB], flags=CONV,
       native=lambda v, r: ['geometric', '1.0'], expect='failed', note='expected: p = 1 gives denom = -log(0) = +inf, quotient 0, result 0 on EVERY path (the canary is unreachable for that reason)'),
-    G('C16.O2.geometric_tiny', 'h_geometric', 'bounded-unwind', defs=['C16_HOT_ONLY_EXP', 'C16_GEO_P=0x1p-60'], repl=[EXP_STUB], flags=CONV + ['--float-overflow-check'],
+    G('C16.O2.geometric_tiny', 'h_geometric', 'bounded-unwind', defs=['C16_HOT_ONLY_EXP', 'C16_GEO_P=0x1p-60'], repl=[EXP_STUB], flags=CONV,
       native=lambda v, r: ['geometric', '0x1p-60'], expect='failed', note='expected: p < 2^-53 gives 1-p == 1, denom = -0.0, quotient -inf/NaN: float->unsigned conversion out of range on EVERY path'),
     # ---- O3: table facts
     G('C16.O3.tables_exp', 'h_tables_exp', 'proved', flags=['--unwind', '257', '--unwinding-assertions']),
@@ -143,19 +151,20 @@ GROUPS = [
     G('C16.O4.weibull', 'h_p_weibull', 'bounded-unwind', repl=[EXP_STUB], flags=PART, native=nat_simple('weibull', 'shape', 'scale')),
     G('C16.O4.std_normal', 'h_p_std_normal', 'bounded-unwind', repl=[NOR_STUB], flags=PART, native=nat_simple('std_normal')),
     G('C16.O4.rayleigh', 'h_p_rayleigh', 'bounded-unwind', repl=[NOR_STUB], flags=PART, native=None),
-    G('C16.O4.std_gamma', 'h_p_std_gamma', 'bounded-unwind', repl=[NOR_STUB], flags=PART, native=nat_simple('std_gamma', 'shape'), expect='failed',
-      note='expected: shape <= 1/3 gives d = shape - 1/3 <= 0, c = inf/NaN and a NaN result (documented precondition is shape > 0)'),
-    G('C16.O4.std_gamma_ge1', 'h_p_std_gamma', 'bounded-unwind', defs=['C16_SHAPE_MIN=1.0'], repl=[NOR_STUB], flags=PART,
-      native=nat_simple('std_gamma', 'shape'), note='shape >= 1 (the range cmb_random_gamma uses)'),
-    G('C16.O4.gamma', 'h_p_gamma', 'bounded-unwind', repl=[NOR_STUB], flags=PART, native=nat_simple('gamma', 'shape', 'scale'), backends=(SAT, CADICAL), qt=150),
-    G('C16.O4.chisquared', 'h_p_chisquared', 'bounded-unwind', repl=[NOR_STUB], flags=PART, native=None, thorough=True),
+    G('C16.O4.std_gamma_lt1', 'h_p_std_gamma', 'bounded-unwind', defs=['C16_SHAPE_BELOW=1.0', 'C16_SHAPE_MIN=0.001', 'C16_NOR_BOUNDED'], repl=[NOR_STUB], flags=PART,
+      backends=(CADICAL,), qt=1400, thorough=True, native=nat_simple('std_gamma', 'shape'),
+      note='0.001 <= shape < 1 (boosted inside std_gamma; the whole of (0,1) did not finish in 600 s); listed assumption: |normal variate| <= 1e100'),
+    G('C16.O4.std_gamma_ge1', 'h_p_std_gamma', 'bounded-unwind', defs=['C16_SHAPE_MIN=1.0', 'C16_NOR_BOUNDED'], repl=[NOR_STUB], flags=PART,
+      backends=(CADICAL, SAT), qt=600, native=nat_simple('std_gamma', 'shape'), note='shape >= 1; listed assumption: |normal variate| <= 1e100'),
+    GX('C16.O4.gamma', 'h_p_gamma', 'bounded-unwind', repl=[NOR_STUB], flags=PART, native=nat_simple('gamma', 'shape', 'scale'), backends=(SAT, CADICAL), qt=150),
+    GX('C16.O4.chisquared', 'h_p_chisquared', 'bounded-unwind', repl=[NOR_STUB], flags=PART, native=None, thorough=True),
     G('C16.O4.std_beta', 'h_p_std_beta', 'bounded-unwind', repl=[GAMMA_STUB], flags=PART, native=nat_simple('std_beta', 'a', 'b'),
       note='std_gamma replaced by the contract "> 0 and finite" (listed, UNDISCHARGED strengthening; and C16.O4.std_gamma FAILS for shape <= 1/3)'),
-    G('C16.O4.std_beta_weak', 'h_p_std_beta', 'bounded-unwind', defs=['C16_GAMMA_WEAK'], repl=[GAMMA_STUB], flags=PART, native=nat_simple('std_beta', 'a', 'b'), thorough=True, expect='failed',
+    GX('C16.O4.std_beta_weak', 'h_p_std_beta', 'bounded-unwind', defs=['C16_GAMMA_WEAK'], repl=[GAMMA_STUB], flags=PART, native=nat_simple('std_beta', 'a', 'b'), thorough=True, expect='failed',
       note='std_gamma replaced by exactly the proved contract (>= 0, not NaN): 0/(0+0) and inf/(inf+y) are NaN; contract-level counterexample - a native reproduction only happens when the chosen a or b is <= 1/3 (the std_gamma defect)'),
     G('C16.O4.beta', 'h_p_beta', 'bounded-unwind', repl=[GAMMA_STUB], flags=PART, native=None,
       backends=(SAT, CADICAL, Z3), note='std_gamma replaced by the contract "> 0 and finite"; a counterexample needs std_beta == 1.0 exactly (gamma outputs y < x * 2^-53), which raw-value injection cannot force: contract-level counterexample, NOT confirmed natively'),
-    G('C16.O4.PERT', 'h_p_pert', 'bounded-unwind', repl=[GAMMA_STUB], flags=PART, native=nat_simple('pert', 'lo', 'md', 'hi'),
+    GX('C16.O4.PERT', 'h_p_pert', 'bounded-unwind', repl=[GAMMA_STUB], flags=PART, native=nat_simple('pert', 'lo', 'md', 'hi'),
       backends=(SAT, CADICAL, Z3), qt=150, note='std_gamma replaced by the contract "> 0 and finite"'),
 ]
 
@@ -333,7 +342,7 @@ def run_group(repo, outdir, gen, g, nat, thorough):
         res['reason'] = 'goto-instrument --replace-calls failed (build break): ' + str(out)[-1500:]
         return fin()
 
-    tmo = FULL_TIMEOUT if thorough else (g['qt'] or QUICK_TIMEOUT)
+    tmo = max(FULL_TIMEOUT, g['qt'] or 0) if thorough else (g['qt'] or QUICK_TIMEOUT)
     backends = g['backends'] if thorough else g['backends'][:1]
     data, tried = None, []
     for be in backends:
@@ -451,7 +460,8 @@ def main(argv):
         print()
         return 2
     nat = Native(repo, outdir, gen)
-    specs = [g for g in GROUPS if (not only or only in g['id']) and (thorough or not g['thorough'])]
+    specs = [g for g in GROUPS if (not only or only in g['id']) and (thorough or not g['thorough'])
+             and ('--experimental' in argv or not g['experimental'])]
     workers = jobs or max(2, min(len(specs) or 1, (os.cpu_count() or 4) - 1))
     groups = []
     with ThreadPoolExecutor(max_workers=workers) as ex:
